@@ -7,4 +7,6 @@ import LopdfModel.Model.Pages
 import LopdfModel.Thm.C12
 import LopdfModel.Model.Doc
 import LopdfModel.Model.Renumber
+import LopdfModel.Lemmas.Traverse
+import LopdfModel.Lemmas.Move
 import LopdfModel.Thm.C10
